@@ -11,6 +11,7 @@ package caskettls
 //@   modifies Config.tlsConfig, Config.ALPN
 //@ func assertConfigsCompatible
 //@   pure reads Config
+//@   requires [both_configs_present] cfg1 != nil && cfg2 != nil
 
 //@ extern fmt.Errorf
 //@   ensures result != nil
@@ -23,6 +24,7 @@ package caskettls
 //@   loop 1 invariant forall(k, 0, #i, configs[k] != nil)
 //@   loop 1 invariant forall(k, #i, len(configs), configs[k] == old(configs[k]))
 //@   loop 1 invariant forall(k, 0, #i, configs[k].Enabled == configs[0].Enabled)
+//@   loop 1 invariant forallT(h, string, has(configMap, h) ==> configMap[h] != nil)
 
 //@ unit configs_compatible frames=on props=C06 filter=`caskettls\.(assertConfigsCompatible|assertClientCertsCompatible)$`
 //@ // Two sites that share one SNI name on a listener share one tls.Config (the later one wins in MakeTLSConfig), so the
